@@ -55,12 +55,12 @@ META = {
         "histories (schedules) executed to the end and compared."
     ),
     "bound": {
-        "quick": "pool of 10 colliding documents (180 operations); bfs over the 60 whole-document operations to closure (cap depth 8); all histories of length 2 "
-                 "whose first call is a whole-document call with caching on and whose second is any operation except single pages with caching off (30 x 120); all 20 interleavings of the 3+3 "
-                 "next() calls of every document pair incl. a document with itself (55 pairs; caching on, for a document with itself also off/off and on/off); "
+        "quick": "pool of 11 colliding documents (198 operations); bfs over the 66 whole-document operations to closure (cap depth 8); all histories of length 2 "
+                 "whose first call is a whole-document call with caching on and whose second is any operation except single pages with caching off (33 x 132); all 20 interleavings of the 3+3 "
+                 "next() calls of every document pair incl. a document with itself (66 pairs; caching on, for a document with itself also off/off and on/off); "
                  "all 3- and 4-subsets of a 3x3 grid x 2 boxes_flow",
-        "thorough": "same pool; bfs over all 180 operations to closure; all histories of length 3 over the 30 whole-document calls followed by "
-                    "any of the 180 operations at depth 2 and the 30 at depth 3; interleavings as quick; 3-,4-,5-subsets of the grid x 4 boxes_flow",
+        "thorough": "same pool; bfs over all 198 operations to closure; all histories of length 3 over the 33 whole-document calls followed by "
+                    "any of the 198 operations at depth 2 and the 33 at depth 3; interleavings as quick; 3-,4-,5-subsets of the grid x 4 boxes_flow",
     },
     "assumptions": [
         "process-wide state = module globals and class attributes of the pdfminer package (digest walks all of them generically); "
@@ -273,10 +273,8 @@ def build_pool() -> dict:
         {"F1": _cidfont("Ryumin", "90ms-RKSJ-H")}, _text("F1", 12, 72, 700, HexStr(b"\x82\xa0\x82\xa2A\x81\x41\x81\xa8")),
         {"F1": _cidfont("Ryumin", "90ms-RKSJ-V")}, _text("F1", 12, 300, 700, HexStr(b"\x82\xa0\x82\xa2\x81\x41\x81\x69\x81\xa8")),
     )
-    pool["cjk2"] = _two_pages(
-        {"F1": _cidfont("Ryumin", "Identity-H")}, _text("F1", 12, 72, 700, HexStr(b"\x03\x4b\x03\x4d\x00\x22")),
-        {"F1": _cidfont("SimSun", "GBK-EUC-H", ordering=b"GB1")}, _text("F1", 12, 72, 700, HexStr(b"\xb0\xa1\xb0\xa2A")),
-    )
+    pool["cjk2"] = _build_cjk2()
+    pool["upd"] = _build_updated()
     # -- RC4 encrypted, ToUnicode stream, strings in content
     docid = b"0123456789abcdef"
 
@@ -344,6 +342,70 @@ def _build_rc4(docid, enc):
     return d.write(cat, info=info, trailer_extra={"Encrypt": e, "ID": [HexStr(docid), HexStr(docid)]})
 
 
+def _build_cjk2():
+    """Identity-H / GBK users of the shared to-unicode maps, plus two Type0 fonts that share ONE descendant CIDFont object:
+    FA (page 1) has its own ToUnicode, FB (page 2) relies on the predefined map: the parent's entries must not stick to the descendant."""
+    d = Doc()
+    cat, pages, p1, p2 = d.reserve(), d.reserve(), d.reserve(), d.reserve()
+    f1 = d.add(_cidfont("Ryumin", "Identity-H"))
+    f2 = d.add(_cidfont("SimSun", "GBK-EUC-H", ordering=b"GB1"))
+    desc = d.add(_cidfont("Shared", "90ms-RKSJ-H")["DescendantFonts"][0])
+    tu = d.add(Stream({}, tounicode_cmap(bfchars=[(b"\x03\x4b", "\u2460"), (b"\x03\x4d", "\u2461")], codespace=((b"\x00\x00", b"\xff\xff"),))))
+    fa = d.add({"Type": N("Font"), "Subtype": N("Type0"), "BaseFont": N("Shared"), "Encoding": N("90ms-RKSJ-H"), "DescendantFonts": [desc], "ToUnicode": tu})
+    fb = d.add({"Type": N("Font"), "Subtype": N("Type0"), "BaseFont": N("Shared"), "Encoding": N("90ms-RKSJ-V"), "DescendantFonts": [desc]})
+    s1 = d.add(Stream({}, _text("F1", 12, 72, 700, HexStr(b"\x03\x4b\x03\x4d\x00\x22")) + _text("FA", 12, 72, 600, HexStr(b"\x82\xa0\x82\xa2"))))
+    s2 = d.add(Stream({}, _text("F1", 12, 72, 700, HexStr(b"\xb0\xa1\xb0\xa2A")) + _text("FB", 12, 300, 600, HexStr(b"\x82\xa0\x82\xa2"))))
+    d.set(cat, {"Type": N("Catalog"), "Pages": pages})
+    d.set(pages, {"Type": N("Pages"), "Kids": [p1, p2], "Count": 2, "MediaBox": [0, 0, 612, 792]})
+    d.set(p1, {"Type": N("Page"), "Parent": pages, "Resources": {"Font": {"F1": f1, "FA": fa}}, "Contents": s1})
+    d.set(p2, {"Type": N("Page"), "Parent": pages, "Resources": {"Font": {"F1": f2, "FB": fb}}, "Contents": s2})
+    return d.write(cat)
+
+
+def _build_updated():
+    """xref-stream file whose catalog and both pages live in one object stream, followed by two incremental updates that
+    replace the compressed pages: page 1 by a classic-table update, page 2 by an xref-stream update (newest definition wins,
+    also when the superseded object sits in an object stream that was already parsed for the catalog)."""
+    d = Doc()
+    cat, pages, p1, p2 = d.reserve(), d.reserve(), d.reserve(), d.reserve()
+    f = d.add(_font("FontA", N("WinAnsiEncoding")))
+    res = {"Font": {"F1": f}}
+    s1 = d.add(Stream({}, _text("F1", 12, 72, 700, b"OLD ONE")))
+    s2 = d.add(Stream({}, _text("F1", 12, 72, 700, b"OLD TWO")))
+    d.set(cat, {"Type": N("Catalog"), "Pages": pages})
+    d.set(pages, {"Type": N("Pages"), "Kids": [p1, p2], "Count": 2, "MediaBox": [0, 0, 612, 792]})
+    d.set(p1, {"Type": N("Page"), "Parent": pages, "Resources": res, "Contents": s1})
+    d.set(p2, {"Type": N("Page"), "Parent": pages, "Resources": res, "Contents": s2})
+    base = _write_objstms(d, cat, groups=[[cat.num, p1.num, p2.num]])
+    prev = int(re.search(rb"startxref\n(\d+)\n%%EOF\n$", base).group(1))
+    size = int(re.search(rb"/Size (\d+)", base[prev:]).group(1))
+    # update 1: classic table, new page 1 + its content stream
+    n1 = size
+    out = bytearray(base)
+    offs = {}
+    for num, obj in ((p1.num, {"Type": N("Page"), "Parent": pages, "Resources": res, "Contents": Ref(n1)}),
+                     (n1, Stream({}, _text("F1", 12, 72, 700, b"NEW ONE")))):
+        offs[num] = len(out)
+        out += b"%d 0 obj\n" % num + ser(obj) + b"\nendobj\n"
+    x1 = len(out)
+    out += b"xref\n"
+    for num in sorted(offs):
+        out += b"%d 1\n%010d 00000 n \n" % (num, offs[num])
+    out += b"trailer\n" + ser({"Size": n1 + 1, "Root": cat, "Prev": prev}) + b"\nstartxref\n%d\n%%%%EOF\n" % x1
+    # update 2: xref stream, new page 2 + its content stream
+    n2, nx = n1 + 1, n1 + 2
+    ent = {}
+    for num, obj in ((p2.num, {"Type": N("Page"), "Parent": pages, "Resources": res, "Contents": Ref(n2)}),
+                     (n2, Stream({}, _text("F1", 12, 72, 700, b"NEW TWO")))):
+        ent[num] = (1, len(out), 0)
+        out += b"%d 0 obj\n" % num + ser(obj) + b"\nendobj\n"
+    x2 = len(out)
+    ent[nx] = (1, x2, 0)
+    xs = xref_stream_obj(ent, {"Type": N("XRef"), "Size": nx + 1, "Root": cat, "Prev": x1}, W=(1, 4, 2))
+    out += b"%d 0 obj\n" % nx + ser(xs) + b"\nendobj\nstartxref\n%d\n%%%%EOF\n" % x2
+    return bytes(out)
+
+
 def grid_doc(cells, font=None, second=None) -> bytes:
     """Single-glyph text boxes on a 3x3 grid with equal pitch (cell i at column i%3, row i//3)."""
     font = font or _font("FontA", N("WinAnsiEncoding"), fixed=True)  # equal glyph widths: equal boxes, real distance ties
@@ -373,7 +435,7 @@ def pool() -> dict:
     return _POOL
 
 
-DOCS = ["diffA", "diffB", "plain", "cjk1", "cjk2", "rc4", "objstm", "damaged", "inline", "ties"]
+DOCS = ["diffA", "diffB", "plain", "cjk1", "cjk2", "rc4", "objstm", "upd", "damaged", "inline", "ties"]
 SUBSETS = (None, 0, 1)
 OPS = [(d, k, c, s) for d in DOCS for k in KINDS for c in (True, False) for s in SUBSETS]
 WHOLE_OPS = [(d, k, True, None) for d in DOCS for k in KINDS]
